@@ -1,4 +1,4 @@
-import Driver.Pub
+import Driver.Mon
 open Lean AV AV.Pub
 
 namespace Drv
@@ -9,18 +9,164 @@ def stepsOf (obs : Json) : List (Json × Json) :=
   | _ => []
 
 /-- model ↔ implementation agreement over all steps of a scenario -/
-def replayAll (obs : Json) (strict : Bool) : Bool × String :=
-  (stepsOf obs).zipIdx.foldl (fun (acc : Bool × String) ((sin, sobs), i) =>
+def replayAll (inp obs : Json) : Bool × String × Bool :=
+  let strict := !(jbool inp "unordered")
+  let hasFault := (stepsOf obs).any fun (_, o) => (parseTrace (jget o "trace")).any fun ev => isErr ev.resp
+  (stepsOf obs).zipIdx.foldl (fun (acc : Bool × String × Bool) ((sin, sobs), i) =>
     if !acc.1 then acc else
-    if (sobs.getObjVal? "setupError").toOption.isSome then (false, s!"step {i}: harness setup error {(jget sobs "setupError").compress}") else
+    if (sobs.getObjVal? "setupError").toOption.isSome then (false, s!"step {i}: harness setup error {(jget sobs "setupError").compress}", false) else
     let (out, outcomeOk, why) := replayStep sin sobs strict
-    if !out.ok then (false, s!"step {i}: {out.why}")
-    else if !outcomeOk then (false, s!"step {i}: {why}")
-    else acc) (true, "")
+    if !out.ok then
+      -- a fault inside the region whose call order depends on Go-map iteration: the set of calls made before the
+      -- fault is not determined by the input; such a case is inconclusive, not a disagreement
+      if !strict && hasFault then (true, s!"inconclusive (fault inside map-ordered region): {out.why}", true)
+      else (false, s!"step {i}: {out.why}", false)
+    else if !outcomeOk then (false, s!"step {i}: {why}", false)
+    else acc) (true, "", false)
+
+/-- first step whose trace the monitor rejects / whose end condition fails -/
+def checkSteps (obs : Json) (f : Json → Json → Option String) : Option String :=
+  (stepsOf obs).zipIdx.foldl (fun (acc : Option String) ((sin, sobs), i) =>
+    match acc with
+    | some _ => acc
+    | none => (f sin sobs).map fun m => s!"step {i}: {m}") none
+
+/-! #### C09 -/
+
+/-- classes of lock violations that are recorded findings (DESIGN §6).  `C09-fwd-relock`: InboxForwarding keeps
+the owned collections of to/cc/audience locked (deferred unlock, pinned by the repository's own tests) while
+`hasInboxForwardingValues` locks the ids of inReplyTo/object/target/tag — an owned collection that is also one of
+those values is locked again while held. -/
+def c09Class (evs : List RecEv) (idx : Nat) (held : List Iri) : String :=
+  let cur := evs.getD idx default
+  let k := ((cur.args.getD 0 Json.null).getStr?).toOption.getD ""
+  let before := evs.take idx
+  -- k is held because the forwarding load loop locked it (lock k; get k) after the seen-test …
+  let loadedByFwd := before.zipIdx.any fun (e, i) =>
+    e.name == "get" && !isErr e.resp && ((e.args.getD 0 Json.null).getStr?).toOption.getD "" == k &&
+    (before.getD (i - 1) default).name == "lock" && (before.take i).any (fun e => e.name == "exists")
+  -- … and the second Lock comes from the ownership search that follows MaxInboxForwardingRecursionDepth
+  if cur.name == "lock" && held.contains k && loadedByFwd && before.any (fun e => e.name == "maxFwdDepth") then "C09-fwd-relock"
+  else ""
+
+def c09Step (_sin sobs : Json) : Option String × String :=
+  let evs := libTrace sobs
+  match monRun lockMon [] evs with
+  | .error (i, what) =>
+    -- recompute the held set at the failing event for classification
+    let held : List Iri := match monRun lockMon [] (evs.take i) with | .ok h => h | .error _ => []
+    (some s!"lock discipline broken at event {i}: {what} (held: {held})", c09Class evs i held)
+  | .ok (held : List Iri) =>
+    if held.isEmpty then (none, "")
+    else
+      (some s!"locks still held when the handler returned: {held}", "")
+
+def c09 (inp obs : Json) : Res :=
+  let (agree, why, inconclusive) := replayAll inp obs
+  let results := (stepsOf obs).map fun (sin, sobs) => c09Step sin sobs
+  let bad := results.filter fun r => r.1.isSome
+  match bad with
+  | [] => { agree := agree, specOk := true, why := why, nontrivial := !inconclusive && (stepsOf obs).any fun (_, o) => (libTrace o).any fun e => e.name == "lock" }
+  | (msg, cls) :: _ => { agree := agree, specOk := false, why := msg.getD "" ++ (if agree then "" else " | " ++ why), known := cls }
+
+/-! #### C07 -/
+
+def c07Step (sin sobs : Json) : Option String :=
+  let evs := libTrace sobs
+  let entry := jstr sin "entry"
+  let isAP := if entry == "postInbox" || entry == "postOutbox" then isAPPost (jstr sin "method") (jstr sin "header")
+    else isAPGet (jstr sin "method") (jstr sin "header")
+  let cfg := cfgOf (jstr sin "kind")
+  if entry == "send" then none else
+  if !isAP then
+    if jbool sobs "handled" || !evs.isEmpty || jstr sobs "err" != "nil" then some "a non-ActivityPub request must be reported not handled, with nothing done or written" else none
+  else if (entry == "postInbox" && !cfg.federated) || (entry == "postOutbox" && !cfg.social) then
+    if evs.map (·.name) == ["writeHeader"] && (evs.head!.args.getD 0 Json.null) == (405 : Nat) && jbool sobs "handled" then none
+    else some "a disabled protocol must answer 405 without consulting the application"
+  else
+    let res := if entry == "handler" then (monRun handlerGateMon () evs).toOption.isSome
+      else (monRun (gateMon (entry == "postInbox")) {} evs).toOption.isSome
+    if res then none else
+      match (if entry == "handler" then (match monRun handlerGateMon () evs with | .error e => some e | .ok _ => none)
+             else (match monRun (gateMon (entry == "postInbox")) {} evs with | .error e => some e | .ok _ => none)) with
+      | some (i, what) => some s!"side effect before the checks passed, at event {i}: {what}"
+      | none => none
+
+def c07 (inp obs : Json) : Res :=
+  let (agree, why, inconclusive) := replayAll inp obs
+  match checkSteps obs c07Step with
+  | none => { agree := agree, specOk := true, why := why, nontrivial := !inconclusive }
+  | some m => { agree := agree, specOk := false, why := m ++ (if agree then "" else " | " ++ why) }
+
+/-! #### C10 -/
+
+def statusesOf (evs : List RecEv) : List Nat :=
+  evs.filterMap fun e => if e.name == "writeHeader" || e.name == "app:writeHeader" then (e.args.getD 0 Json.null).getNat?.toOption else none
+
+def c10Step (sin sobs : Json) : Option String × String :=
+  let all := parseTrace (jget sobs "trace")
+  let evs := libTrace sobs
+  let entry := jstr sin "entry"
+  if entry == "send" then (none, "") else
+  let handled := jbool sobs "handled"
+  let err := jstr sobs "err"
+  let libStatuses := statusesOf evs
+  let allStatuses := statusesOf all
+  let bodies := (evs.filter fun e => e.name == "writeBody").length
+  if (sobs.getObjVal? "panic").toOption.isSome then (none, "") else     -- crashes are C11's
+  if !handled then
+    (if allStatuses.isEmpty && bodies == 0 && err == "nil" then none else some "not handled, yet something was written or an error returned", "")
+  else if err != "nil" then
+    -- a failing body write is reported after the status went out; nothing else may be written
+    let writeFailed := evs.any fun e => e.name == "writeBody" && (isErr e.resp || e.resp == Json.mkObj [("ok", false)])
+    (if libStatuses.isEmpty || writeFailed then none else some s!"error returned but the library had already written status {libStatuses}", "")
+  else
+    match allStatuses with
+    | [s] =>
+      -- the documented status for the branch taken
+      let isGet := entry == "getInbox" || entry == "getOutbox" || entry == "handler"
+      let cfg := cfgOf (jstr sin "kind")
+      let body := jget sin "body"
+      let v := toJ (jget body "v")
+      let idUsable := match Val.idState v with | .iri _ => true | _ => false
+      let blockedYes := evs.any fun e => e.name == "blocked" && e.resp == Json.mkObj [("ok", true)]
+      let authDenied := all.any fun e => e.name == "app:writeHeader"
+      let expect : Option Nat :=
+        if authDenied then some 401
+        else if isGet then (if entry == "handler" && Val.typeName (toJ (match (evs.find? fun e => e.name == "get") with | some e => (jget e.resp "ok") | none => Json.null)) == "Tombstone" then some 410 else some 200)
+        else if (entry == "postInbox" && !cfg.federated) || (entry == "postOutbox" && !cfg.social) then some 405
+        else if jstr body "k" == "undecodable" then some 400
+        else if entry == "postInbox" && !idUsable then some 400
+        else if blockedYes then some 403
+        else none   -- 400 (missing object/target), 200 or 201: decided by the side effects; checked against the model
+      let okStatus := match expect with
+        | some e => s == e
+        | none => if entry == "postInbox" then s == 200 || s == 400 else s == 201 || s == 400
+      let locOk := if s == 201 then
+          -- Location = id of the activity that was stored and listed in the outbox
+          let loc := match evs.find? fun e => e.name == "writeHeader" with
+            | some e => jstr (e.args.getD 1 Json.null) "Location"
+            | none => ""
+          let storedIds := evs.filterMap fun e => if e.name == "setOutbox" then
+              (match toJ (e.args.getD 0 Json.null) |> fun p => Val.rawList p "orderedItems" with
+               | some (J.str s :: _) => some s
+               | _ => none) else none
+          storedIds.getLast? == some loc
+        else true
+      if !okStatus then (some s!"status {s} written where the documented status is {expect}", if entry == "postInbox" && !idUsable && s == 200 then "C10-F7" else "")
+      else if !locOk then (some "201 without a Location header equal to the new activity's id", "")
+      else (none, "")
+    | ss => (some s!"handled without error but {ss.length} statuses were written: {ss}", "")
+
+def c10 (inp obs : Json) : Res :=
+  let (agree, why, inconclusive) := replayAll inp obs
+  let results := (stepsOf obs).map fun (sin, sobs) => c10Step sin sobs
+  match results.filter fun r => r.1.isSome with
+  | [] => { agree := agree, specOk := true, why := why, nontrivial := !inconclusive }
+  | (msg, cls) :: _ => { agree := agree, specOk := false, why := msg.getD "" ++ (if agree then "" else " | " ++ why), known := cls }
 
 def pubGeneric (_prop : String) (inp obs : Json) : Res :=
-  let strict := !(jbool inp "unordered")
-  let (agree, why) := replayAll obs strict
-  { agree := agree, specOk := true, why := why }
+  let (agree, why, inconclusive) := replayAll inp obs
+  { agree := agree, specOk := true, why := why, nontrivial := !inconclusive }
 
 end Drv
